@@ -73,6 +73,27 @@ def write_layer():
            bounds=ops + "; BUFSZ enumerated 0..needed+1 for byte counts (2,1,0,3) x all 180 kind vectors and (0,3,1,1) x 10 kind vectors (quick: 8 kind vectors x 6 sizes)",
            outside="vbi_export_printf/vprintf, puts_iconv; allocation failure; outputs >= 64 KiB (growth policy switch); other byte-count vectors",
            grid=g_full, quick_grid=g_quick, reach=["end"], timeout=120, mem_gb=1, **common),
+        Ob("write_printf", func="h_c16_mem",
+           desc="write_mem_alloc with vbi_export_printf(e, \"%s\", string) among the operations (PFMASK: which ones; the others vbi_export_write): the formatted bytes land "
+                "in the stream exactly like written ones, for every user buffer size around the total - including the output that ends exactly at the buffer capacity "
+                "(vsnprintf then reports a length == space available and has truncated: the buffer must grow)",
+           encodes=["vbi_export_vprintf", "vbi_export_printf", "vbi_export_mem", "vbi_export_alloc", "_vbi_export_grow_buffer_space"],
+           bounds="byte counts (2,1,0,3) and (0,3,1,1); printf at operation 2 (empty string) / 3 / 2+3 / 1+2+3; BUFSZ 0..needed+1 (quick: printf last and 1+2+3, 4 sizes)",
+           outside="templates other than %s (the template only reaches vsnprintf); VBI_EXPORT_TARGET_FP (vfprintf path); vsnprintf returning -1 (pre-C99 libc)",
+           # printf is never the FIRST operation here: with the buffer still unallocated vbi_export_vprintf computes e->buffer.data + offset = NULL + 0
+           # (export.c:1483; UBSan "applying zero offset to null pointer", harmless with glibc) - reported as a suspected defect, obligation write_printf_first
+           grid=[dict(_lens(l), KINDS=0, PFMASK=m, BUFSZ=b) for l in (LA, LB) for m in (4, 8, 12, 14) for b in range(0, sum(l) + 2)],
+           quick_grid=[dict(_lens(LA), KINDS=0, PFMASK=m, BUFSZ=b) for m in (8, 14) for b in (3, 5, 6, 7)],
+           reach=["end"], timeout=120, mem_gb=1,
+           **dict(common, unwindset=dict(common["unwindset"], **{"vsnprintf.0": 8}),
+                  stubs=common["stubs"] + ["vsnprintf(\"%s\") = models/c16_stubs.c: C99 semantics (at most n-1 characters + NUL, returns the untruncated length)"])),
+    ] + ([
+        Ob("write_printf_first", func="h_c16_mem",
+           desc="CANDIDATE (only with VERIF_CANDIDATES=1; refutes the unchanged tree): vbi_export_printf as the first output call of an exporter on the alloc target: "
+                "e->buffer.data is still NULL and vbi_export_vprintf evaluates e->buffer.data + offset (NULL + 0, export.c:1483)",
+           encodes=["vbi_export_vprintf"], bounds="one layout", grid=[dict(_lens(LA), KINDS=0, PFMASK=1, BUFSZ=7)], reach=["end"], timeout=120, mem_gb=1,
+           **dict(common, unwindset=dict(common["unwindset"], **{"vsnprintf.0": 8}))),
+    ] if os.environ.get("VERIF_CANDIDATES") else []) + [
         Ob("write_stdio", func="h_c16_stdio",
            desc="vbi_export_stdio with the same exporter through the fwrite model: success <=> exporter ok and no short write; on success the "
                 "stream holds exactly the reference bytes in order; on failure a prefix of them; export object left clean",
@@ -174,7 +195,10 @@ def rendering():
     vt_full = vt(1, 1, 0, range(8)) + vt(1, 1, 5, (0, 2, 6)) + vt(2, 1, 0, range(8)) + vt(2, 1, 3, (1, 3, 7)) + vt(1, 2, -1, (0, 2, 3, 6)) + \
               [dict(CC=0, RW=1, RH=1, FMT=1, RSX=0), dict(CC=0, RW=2, RH=1, FMT=1, RSX=4)]
     vt_quick = [dict(CC=0, RW=1, RH=1, FMT=6, RSX=1, SIZE0=0, SIZE1=0, DRCS=0, FONTFILL=0), dict(CC=0, RW=1, RH=1, FMT=6, RSX=0, SIZE0=6, SIZE1=0, DRCS=1, FONTFILL=0),
-                dict(CC=0, RW=1, RH=1, FMT=1, RSX=0)]
+                dict(CC=0, RW=1, RH=1, FMT=1, RSX=0),
+                # a DOUBLE_WIDTH cell in the last (only) column of the region, rowstride without slack: 49 s / 2.5 GB measured; the reverse of fix 0296dad
+                # (seeded/FIX-draw-region-wide-last-column) writes 12 pixels past the canvas here
+                dict(CC=0, RW=1, RH=1, FMT=6, RSX=0, SIZE0=1, SIZE1=0, DRCS=0, FONTFILL=0)]
     cc_full = [dict(CC=1, RW=w, RH=1, FMT=6, RSX=x, FONTFILL=f) for w in (1, 2) for x in (0, 3, -1) for f in (0, 255)] + [dict(CC=1, RW=1, RH=1, FMT=1, RSX=0)]
     cc_quick = [dict(CC=1, RW=1, RH=1, FMT=6, RSX=0, FONTFILL=255), dict(CC=1, RW=2, RH=1, FMT=6, RSX=3, FONTFILL=0), dict(CC=1, RW=1, RH=1, FMT=1, RSX=0)]
     cc_rgba = [dict(CC=1, RW=1, RH=1, FMT=32, RSX=0, FONTFILL=0), dict(CC=1, RW=1, RH=1, FMT=32, RSX=4, FONTFILL=255)]
